@@ -147,6 +147,7 @@ class VirtualClock:
     number `expire_at` (1-based), from which on they return a value past any deadline."""
 
     def __init__(self, expire_at=None, tick=1e-6, jump=1e9):
+        self.offset = 0.0  # advanced from outside (e.g. by TickingProblem: time that passes while user functions are evaluated)
         self.reads = 0
         self.expire_at = expire_at
         self.tick = tick
@@ -164,7 +165,7 @@ class VirtualClock:
                 chain.append(f.f_code.co_name)
                 f = f.f_back
             self.sites.append(tuple(chain))
-        t = 1000.0 + self.reads * self.tick
+        t = 1000.0 + self.reads * self.tick + self.offset
         if self.expire_at is not None and self.reads >= self.expire_at:
             t += self.jump
         return t
